@@ -572,6 +572,20 @@ Proof.
   unfold do_mcudone. destruct (aget (h_mcupending h) tok) as [p|]; [|apply shr_refl].
   eapply shr_trans; [|apply shr_finish_create]. apply shr_eq; reflexivity.
 Qed.
+Lemma shr_do_sendoffer h c x s i stream : shr h (fst (do_sendoffer h c x s i stream)).
+Proof.
+  unfold do_sendoffer.
+  destruct i as [n|n|k|n]; try (destruct (negb (send_allowed (s_perms s) stream)); [apply shr_refl|apply shr_refl]).
+  destruct (get_sess h n) as [t|] eqn:Ht; [|destruct (negb (send_allowed (s_perms s) stream)); [apply shr_refl|apply shr_refl]].
+  destruct (N.eqb_spec (s_backend t) (s_backend s)) as [Hbt|]; cbn [negb]; [|apply shr_refl].
+  destruct (N.eqb n x); [apply shr_refl|].
+  destruct (negb (send_allowed (s_perms s) stream)); [apply shr_refl|].
+  cbv zeta. set (r := match s_kind t with KVirtual p _ => p | _ => n end).
+  destruct (get_sess h r) as [rs|] eqn:Hr; [|apply shr_refl].
+  destruct (is_virtual (s_kind rs)) eqn:Hv; [apply shr_refl|].
+  destruct (sub_get rs x stream); [apply shr_send_session|apply shr_start_create].
+Qed.
+
 Lemma shr_do_media h c x s to mk stream media :
   get_sess h x = Some s -> shr h (fst (do_media h c x s to mk stream media)).
 Proof.
@@ -584,7 +598,7 @@ Proof.
     + match goal with |- context [if ?c then _ else _] => destruct c end; [apply shr_refl|].
       destruct (negb (same_call h x s _)); [apply shr_refl|].
       destruct (sub_get s _ stream); [apply shr_send_session|apply shr_start_create].
-    + destruct (N.eqb mk 2); [|apply shr_refl].
+    + destruct (is_cand mk); [|destruct (N.eqb mk 3); [apply shr_do_sendoffer|apply shr_refl]].
       match goal with |- context [if ?c then _ else _] => destruct c end.
       * destruct (negb (send_allowed (s_perms s) stream)); [apply shr_refl|]. destruct (aget (s_pubs s) stream); apply shr_refl.
       * destruct (sub_get s _ stream); apply shr_refl.
@@ -1991,6 +2005,28 @@ Proof.
   - intros c m Hin. destruct (O c m Hin) as [E|(sid & s & Hs & Hb & Hc)]; [now left|right]. exists sid, s. auto.
 Qed.
 
+Lemma loc_do_sendoffer b h c x s i stream : TI h -> get_sess h x = Some s -> s_backend s = b ->
+  Loc b (Some c) h (do_sendoffer h c x s i stream).
+Proof.
+  intros TIh Hs Hb.
+  assert (Hx : bsid b h x) by (intros t Ht; congruence).
+  assert (Herr : forall e, Loc b (Some c) h (h, [ToConn c (SError e)])).
+  { intros e. split; [apply fr_refl|]. apply outs_ok_cons_own; [reflexivity|apply outs_ok_nil]. }
+  unfold do_sendoffer.
+  destruct i as [n|n|k|n]; try (destruct (negb (send_allowed (s_perms s) stream)); [apply Herr|apply loc_ret]).
+  destruct (get_sess h n) as [t|] eqn:Ht; [|destruct (negb (send_allowed (s_perms s) stream)); [apply Herr|apply loc_ret]].
+  destruct (N.eqb_spec (s_backend t) (s_backend s)) as [Hbt|]; cbn [negb]; [|apply loc_ret].
+  destruct (N.eqb n x); [apply loc_ret|].
+  destruct (negb (send_allowed (s_perms s) stream)); [apply Herr|].
+  cbv zeta. set (r := match s_kind t with KVirtual p _ => p | _ => n end).
+  assert (Hrb : bsid b h r).
+  { subst r. destruct (s_kind t) as [| |p v] eqn:Hk; [intros t' Ht'; congruence|intros t' Ht'; congruence|].
+    rewrite <- Hb, <- Hbt. apply (t_parent h (proj1 TIh) n t p v Ht Hk). }
+  destruct (get_sess h r) as [rs|] eqn:Hr; [|apply loc_ret].
+  destruct (is_virtual (s_kind rs)) eqn:Hv; [apply loc_ret|].
+  destruct (sub_get rs x stream); [apply loc_send_session; [exact TIh|exact Hrb]|apply loc_start_create; [exact TIh|exact Hrb|exact Hx]].
+Qed.
+
 Lemma loc_do_media b h c x s to mk stream media : TI h -> get_sess h x = Some s -> s_backend s = b ->
   Loc b (Some c) h (do_media h c x s to mk stream media).
 Proof.
@@ -2012,7 +2048,7 @@ Proof.
     + match goal with |- context [if ?cnd then _ else _] => destruct cnd end; [apply loc_ret|].
       destruct (negb (same_call h x s _)); [apply Herr|].
       destruct (sub_get s _ stream); [now apply loc_send_session|now apply loc_start_create].
-    + destruct (N.eqb mk 2); [|apply loc_ret].
+    + destruct (is_cand mk); [|destruct (N.eqb mk 3); [now apply loc_do_sendoffer|apply loc_ret]].
       match goal with |- context [if ?cnd then _ else _] => destruct cnd end.
       * destruct (negb (send_allowed (s_perms s) stream)); [apply Herr|]. destruct (aget (s_pubs s) stream); [apply loc_ret|apply Herr].
       * destruct (sub_get s _ stream); [apply loc_ret|apply Herr].
